@@ -164,7 +164,28 @@ def static_meta_exclude(repo):
                             names.add(attr)
     m = repo.module(NODE_UTILS)
     base_ok = False
+
+    def class_dir(c0):
+        out = set()
+        for c in c0.mro():
+            out |= set(c.class_attrs) | set(c.methods)
+            if c.node is not None:
+                out |= {st.name for st in c.node.body if isinstance(st, (ast.FunctionDef, ast.AsyncFunctionDef))}
+            i_ = c.methods.get('__init__')
+            if i_ is not None:
+                for n_ in walk_no_defs(i_.node):
+                    if isinstance(n_, ast.Assign):
+                        out |= {attr for recv, attr, _v in pat.attr_store(n_) if recv == 'self'}
+        return out
     for n in m.tree.body:
+        # META_EXCLUDE.update(dir(SomeEvent(...))): the attributes of that event class, reconstructed the same way
+        if isinstance(n, ast.Expr) and isinstance(n.value, ast.Call) and call_name(n.value) == 'META_EXCLUDE.update' and n.value.args \
+                and isinstance(n.value.args[0], ast.Call) and call_name(n.value.args[0]) == 'dir' and n.value.args[0].args \
+                and isinstance(n.value.args[0].args[0], ast.Call):
+            cn = call_name(n.value.args[0].args[0])
+            tgt = repo.resolve_name(m, cn) if cn else None
+            if tgt is not None and hasattr(tgt, 'mro'):
+                names |= class_dir(tgt)
         if isinstance(n, ast.Assign) and src(n.targets[0]) == 'META_EXCLUDE':
             base_ok = src(n.value).replace(' ', '') == 'set(dir(Event()))'
         if isinstance(n, ast.Expr) and isinstance(n.value, ast.Call) and call_name(n.value) == 'META_EXCLUDE.add' and n.value.args \
@@ -231,6 +252,40 @@ def rule_b(repo, chk):
            f'touched: {sorted(touched)}', discr='dispatcher-attrs-excluded')
     for a in missing:
         chk.ob('b', f'{NODE_UTILS}::META_EXCLUDE', f'`{a}` is excluded', False, NODE_UTILS, detail=f'used at {touched[a]}', discr=f'missing:{a}')
+    # handlers are matched by event *name*: what the handlers of the loop's own idle event read from "their" event must not be peer-settable either
+    idle = {}
+    for f in repo.handlers_of('generate_events'):
+        if len(f.params) < 2 or not f.module.relpath.startswith('circuits/core/'):
+            continue
+        chk.touch(f)
+        evp = f.params[1]
+        todo = [(f, evp)]
+        seen_f = set()
+        while todo:
+            ff, pv = todo.pop()
+            if (ff.ref, pv) in seen_f:
+                continue
+            seen_f.add((ff.ref, pv))
+            rebound = set()     # loops that re-use the parameter's name for something else (KQueue: `for event in events`)
+            for w in ast.walk(ff.node):
+                if isinstance(w, ast.For) and any(isinstance(t, ast.Name) and t.id == pv for t in ast.walk(w.target)):
+                    rebound |= {id(x) for x in ast.walk(w)}
+            for w in ast.walk(ff.node):
+                if isinstance(w, ast.Attribute) and isinstance(w.value, ast.Name) and w.value.id == pv and isinstance(w.ctx, ast.Load) and id(w) not in rebound:
+                    idle.setdefault(w.attr, f'{ff.module.relpath}:{w.lineno}')
+                # the event handed on to a method of the same class (pollers: self._generate_events(event))
+                if isinstance(w, ast.Call) and isinstance(w.func, ast.Attribute) and src(w.func.value) == 'self' and ff.cls is not None and id(w) not in rebound:
+                    for c2 in [ff.cls] + repo.subclasses(ff.cls):
+                        m2 = c2.methods.get(w.func.attr)
+                        if m2 is not None:
+                            for i, a in enumerate(w.args):
+                                if src(a) == pv and i + 1 < len(m2.params):
+                                    todo.append((m2, m2.params[i + 1]))
+    need(len(idle) >= 2, f'C19.b: attributes read by generate_events handlers: {sorted(idle)}; time_left/stop/lock confirmed by hand')
+    miss3 = sorted(a for a in idle if a not in excl)
+    chk.ob('b', f'{NODE_UTILS}::META_EXCLUDE', f'the {len(idle)} attributes the idle handlers (matched by the name generate_events) read from their event are excluded from '
+           'peer-settable meta data', not miss3, NODE_UTILS, detail=('missing: ' + ', '.join(f'{a} (read at {idle[a]})' for a in miss3)) if miss3 else f'read: {sorted(idle)}',
+           discr='idle-attrs-excluded')
     # node's own bookkeeping attributes
     p = repo.cls(NODE_PROTOCOL, 'Protocol')
     own = set()
